@@ -35,6 +35,9 @@ C18_pub(ex, log, out) ==
     \* client errors and invalid bodies are final for that provider; retryable errors are retried within the budget
     /\ \A p \in {ex.final[x] : x \in DOMAIN ex.final} : Cardinality({i \in DOMAIN log : Idx(log[i].host) = p}) = 1
     /\ \A p \in {ex.retried[x] : x \in DOMAIN ex.retried} : Cardinality({i \in DOMAIN log : Idx(log[i].host) = p}) >= 2
+\* C15 / C08 on the real fetcher without connectivity: every lookup comes back (failed) within the five providers' budgets, also after
+\* an earlier lookup on the same fetcher failed
+C15_fetch(got) == \A i \in DOMAIN got : got[i].op = "getip" => (got[i].returned /\ got[i].ms <= 5 * PerProviderMs + 4000)
 \* C08: bounded whatever the providers do: 2 s per provider consulted
 C08_pub(ex, log, out) ==
     /\ out.returned
